@@ -379,9 +379,12 @@ def liveness_C06(v, sc, binary):
 
 
 def check_C06(tier):
-    cfgs = cfgs_basic(tier) + [mk("p2skew", [10, 1], 11, "rate", 1, 1)]
+    idle = mk("p2idleunbuf", [2, 1], 3, "rate", 2, 2, unbuf=(2,))       # an OPEN, IDLE unbuffered input next to one that has data
+    idle["items"]["2"] = 0
+    idle["noclose"] = [2]
+    cfgs = cfgs_basic(tier) + [mk("p2skew", [10, 1], 11, "rate", 1, 1), idle]
     if tier == "quick":
-        cfgs = [cfgs[0], cfgs[2], cfgs[3]]
+        cfgs = [cfgs[0], cfgs[2], cfgs[3], idle]
     return v2_property("C06", tier, cfgs, "alone", free=True, v1kinds=("alone",),
                        nontrivial=lambda t: t.get("QA") is not None,
                        rule="TLC liveness (every written item eventually received, termination) under fairness, in bounded PrioV2 configs incl. an unbuffered "
@@ -537,6 +540,7 @@ def v1_configs(kind, tier):
         return [mk1("v1alone", [2, 1], {2: 1, 1: 2}, 3, "rate", 2, 2, 4, extra=al),
                 mk1("v1alonefair", [3, 2, 1], {3: 1, 2: 2, 1: 3}, 4, "fair", 3, 1, 3, extra=al),
                 mk1("v1aloneskew", [10, 1], {10: 1, 1: 2}, 11, "rate", 2, 2, 3, extra=al),
+                mk1("v1aloneunbuf", [2, 1], {2: 1, 1: 2}, 3, "rate", 2, 2, 3, extra=al, unbuf=[1]),   # the other input is unbuffered, open and idle
                 mk1("v1alonezero", [3, 2, 1], {3: 1, 2: 2, 1: 3}, 1, "rate", 3, 2, 3, extra=al)]   # fatal by the subset definition: F4
     if kind == "fault":
         return [mk1("v1fault", [2, 1], {2: 1, 1: 2}, 3, "rate", 2, 2, 6, graceful=True, faults=1),
